@@ -129,6 +129,21 @@ def replay_case(arg):
                         cnt['evaluations'] = cnt.get('evaluations', 0) + 1
                         if t != exp_table:
                             fail('TableIsApplied', 'table_set_through_holder', dict(holder=pname, got=t, expected=exp_table))
+                    # the table that comes WITH a sample (include_regimen): the doses up to the LATEST requested time, whatever
+                    # the order in which the times are listed (here the latest time is listed first)
+                    if final is not None and final > 0:
+                        with warnings.catch_warnings():
+                            warnings.simplefilter('ignore')
+                            df_s = h.sample([final, 0.5 * final], n_samples=2, seed=1, include_regimen=True) \
+                                if name.startswith(('PAM', 'Posterior')) else \
+                                h.sample([0.5 + 0.1 * k_ for k_ in range(h.n_parameters())], [final, 0.5 * final], n_samples=2,
+                                         seed=1, include_regimen=True)
+                        rows_s = df_s[df_s['Dose'].notna()] if 'Dose' in df_s.columns else df_s.iloc[0:0]
+                        per_id = name.startswith('PredictiveModel')           # (one copy of the table per simulated individual)
+                        t_s = _table(rows_s[rows_s['ID'] == rows_s['ID'].iloc[0]]) if (per_id and len(rows_s)) else _table(rows_s)
+                        cnt['evaluations'] = cnt.get('evaluations', 0) + 1
+                        if t_s != exp_table:
+                            fail('TableIsApplied', 'table_with_a_sample_of_unsorted_times', dict(holder=name, got=t_s, expected=exp_table))
             # ---- (ii) what the simulated system receives ------------------------------------
             names = model.parameters()
             x0 = {'global.xa': 0.5, 'global.xb': 0.25, 'dose.drug_amount': 0.0, 'dose.absorption_rate': 1.3, 'global.ka': 0.0}
